@@ -6815,7 +6815,15 @@ blockSize_explicitDelimiter(const ZSTD_Sequence* inSeqs, size_t inSeqsSize, ZSTD
     assert(spos <= inSeqsSize);
     while (spos < inSeqsSize) {
         end = (inSeqs[spos].offset == 0);
-        blockSize += inSeqs[spos].litLength + inSeqs[spos].matchLength;
+        {   size_t const litLength = inSeqs[spos].litLength;
+            size_t const matchLength = inSeqs[spos].matchLength;
+            /* lengths are 32-bit values : bound each of them, then the running sum, so that nothing can wrap */
+            RETURN_ERROR_IF(litLength > ZSTD_BLOCKSIZE_MAX || matchLength > ZSTD_BLOCKSIZE_MAX,
+                            externalSequences_invalid, "sequences incorrectly define a too large block");
+            blockSize += litLength + matchLength;
+            RETURN_ERROR_IF(blockSize > ZSTD_BLOCKSIZE_MAX,
+                            externalSequences_invalid, "sequences incorrectly define a too large block");
+        }
         if (end) {
             if (inSeqs[spos].matchLength != 0)
                 RETURN_ERROR(externalSequences_invalid, "delimiter format error : both matchlength and offset must be == 0");
